@@ -212,6 +212,9 @@ func (w *vpWorld) showVal(v reflect.Value) string {
 	}
 	switch v.Kind() {
 	case reflect.Slice:
+		if v.IsNil() { // a group field left at its zero value (optional, and the group could not be resolved)
+			return "nil"
+		}
 		var parts []string
 		for i := 0; i < v.Len(); i++ {
 			parts = append(parts, w.showVal(v.Index(i)))
@@ -538,8 +541,8 @@ func (w *vpWorld) makeConstructor(r *vpReg) any {
 			if o.alias {
 				continue
 			}
-			if hasNil && r.form == "ro" && k == nilField {
-				objs = append(objs, reflect.Zero(o.typ)) // this field stays nil
+			if hasNil && (r.form == "ro" || (r.form == "multi" && o.typ.Kind() == reflect.Interface)) && k == nilField {
+				objs = append(objs, reflect.Zero(o.typ)) // this field / return value stays nil
 				continue
 			}
 			obj := reflect.New(slotType(o.slot).Elem())
@@ -568,7 +571,18 @@ func (w *vpWorld) makeConstructor(r *vpReg) any {
 			}
 			res = append(res, st)
 		default:
-			res = append(res, objs...)
+			n := 0
+			for _, o := range r.outs {
+				if o.alias {
+					continue
+				}
+				v := objs[n]
+				if o.typ.Kind() == reflect.Interface && v.Type() != o.typ {
+					v = v.Convert(o.typ)
+				}
+				res = append(res, v)
+				n++
+			}
 		}
 		if r.withErr {
 			res = append(res, reflect.Zero(vpErrType))
@@ -637,6 +651,9 @@ func (w *vpWorld) monitorArgs(r *vpReg, inv, scN int, vals []reflect.Value) {
 		v := vals[k]
 		if d.group != "" {
 			rs, ks := w.membersOf(d.typ, d.group)
+			if d.optional && v.IsNil() {
+				continue // optional group field left zero: legitimate only if a member could not be resolved, checked by the correspondence
+			}
 			if v.Len() != len(rs) {
 				w.fail("C04", "constructor %d: group field %d has %d members, %d registered", ctor, k, v.Len(), len(rs))
 				continue
@@ -2032,6 +2049,15 @@ func (w *vpWorld) generate(o vpGenOpts) {
 				usedPlain[t] = true
 				reg.outs = append(reg.outs, vpOut{typ: t, slot: slot})
 			}
+			if len(reg.outs) >= 2 && rng.Intn(3) == 0 {
+				// one return value declared as an interface type (the constructor may return it nil)
+				j, it := 1+rng.Intn(len(reg.outs)-1), rng.Intn(len(vpIfaces))
+				if !usedIface[vpIfaces[it]] {
+					usedIface[vpIfaces[it]] = true
+					usedPlain[reg.outs[j].typ] = false
+					reg.outs[j].typ = vpIfaces[it]
+				}
+			}
 			if len(reg.outs) < 2 {
 				reg.form = "plain"
 				if len(reg.outs) == 0 {
@@ -2276,6 +2302,14 @@ func (w *vpWorld) generateFaults(o vpGenOpts) {
 		for _, reg := range w.regs {
 			if reg.form == "ro" && len(reg.outs) >= 2 && rng.Intn(2) == 0 {
 				w.nbeh[[2]int{reg.idx + 1, 1 + rng.Intn(3)}] = rng.Intn(len(reg.outs))
+			}
+			// a multi-return constructor that returns nil for a return value of interface type
+			if reg.form == "multi" && rng.Intn(2) == 0 {
+				for k, o := range reg.outs {
+					if o.typ.Kind() == reflect.Interface {
+						w.nbeh[[2]int{reg.idx + 1, 1 + rng.Intn(3)}] = k
+					}
+				}
 			}
 		}
 		// an initializer that fails when a later scope is created (its first run is the root scope at Build)
